@@ -62,6 +62,18 @@ def generate(rng, tier):
     cases = []
     n = 500 if tier == "quick" else 8000
     specs = schemas()
+    # a nested section that arrives ONLY through a root-level include and names an include of its own; chains
+    nested = specs[3]
+    for fmt in ["json", "yaml", "xml", "xml-root"]:
+        for docsub in (None, {}, {"b": "main"}):
+            doc = {"inc": "f1.json", "a": "main"}
+            if docsub is not None:
+                doc["sub"] = docsub
+            files = {"f1.json": {"sub": {"inc": "g1.json", "b": 2, "deep": {"inc": "f2.json", "d": 0}}, "c": 1},
+                     "f2.json": {"d": "from-f2", "a": [1]},
+                     "dir2/g1.json": {"c": 3, "b": "from-g1", "deep": {"a": True}},
+                     "dir2/g2.json": {"d": 4}}
+            cases.append({"spec": nested, "files": files, "doc": doc, "kind": "nested-via-include", "fmt": fmt})
     for i in range(n):
         spec = specs[i % len(specs)] if i < 5 * 20 else rng.choice(specs)
         kind = rng.choice(["ok", "ok", "ok", "ok", "missing", "invalid", "nonstr", "abs"])
@@ -79,7 +91,7 @@ def generate(rng, tier):
             # what an included file says for the scope that includes it: any scope shape may include any file,
             # so files are generated against the root spec and the nested specs alike
             sub = rng.choice([spec] + [s for _, s in spec["subs"]] or [spec])
-            files[fn] = rscope(rng, sub, 2, [None, None, "f2.json", "g2.json"], p_inc=0.25)
+            files[fn] = rscope(rng, sub, 2, [None, "f2.json", "g2.json"], p_inc=0.45)
         if kind == "invalid":
             files[rng.choice(FILES)] = "INVALID"
         doc = rscope(rng, spec, 2, names, p_inc=0.8)
